@@ -490,6 +490,7 @@ func TestVF(t *testing.T) {
 	if mode == "" {
 		t.Skip("VF_MODE not set")
 	}
+	vfT = t
 	rdebug.SetGCPercent(400)
 	journal := os.Getenv("VF_JOURNAL")
 	vfStartWatchdog(journal)
